@@ -15,13 +15,13 @@ META = {
     "title": "cell values = respondent-level tabulation",
     "bounds": {
         "quick": {"cat_valid": 2, "missing_positions": ["first", "middle", "last"], "mr_items": 2, "ca": "2 items x 2 cats",
-                  "dims": "1-D, 2-D (all of CAT/MR squared, CA), 3-D (CAT/MR table)", "data": "all pattern masses m,u >= 0 (unbounded reals)"},
+                  "dims": "1-D, 2-D (all of CAT/MR squared, CA), 3-D (CAT/MR table)", "fixtures": "12 repository fixtures with categorical / datetime / text / binned-numeric dimensions as templates (weighted counts and carried measures symbolic)", "data": "all pattern masses m,u >= 0 (unbounded reals)"},
         "thorough": {"cat_valid": 3, "missing": "up to 2, all positions", "mr_items": "2 (3 in 1-D/2-D with CAT)", "ca": "2x3",
                      "dims": "1-D, 2-D, 3-D", "data": "all pattern masses m,u >= 0 (unbounded reals)"},
     },
     "assumptions": ["A1: pattern masses m[p] >= 0, u[p] >= 0 (independent of each other)",
                     "tabulator (symx/tab.py) models the backend's wire layout; floats treated as reals"],
-    "outside": ["sizes beyond the bounds", "covariance measure", "numeric-array / datetime / text / binned dimensions (covered only through the fixture differential)"],
+    "outside": ["sizes beyond the bounds", "covariance measure", "numeric-array dimensions (covered only through the fixture differential)"],
 }
 
 
@@ -122,6 +122,70 @@ def carried(eng, rows, cols, measure="mean", unavailable=((0, 1),), with_valid_c
     return obs
 
 
+def fixture_cells(eng, path):
+    """a repository fixture whose dimensions are plain categorical / datetime / text / binned-numeric enums as configuration template:
+    every weighted count (and carried mean / sum / stddev / median) of the response is symbolic; the head counts stay the fixture's.
+    Oracle: the wire tensor restricted, per dimension, to the elements not flagged missing (own reading of the payload)."""
+    import json
+    raw = json.load(open(path))
+    res = raw.get("value", raw)["result"]
+    dims = res["dimensions"]
+    shape, valid = [], []
+    for d in dims:
+        t = d["type"]
+        els = t["categories"] if t["class"] == "categorical" else t["elements"]
+        shape.append(len(els))
+        valid.append([k for k, e in enumerate(els) if not e.get("missing")])
+    shape = tuple(shape)
+    n = int(np.prod(shape)) if shape else 1
+    tensors = {}
+    for mname, m in res["measures"].items():
+        if mname not in ("count", "mean", "sum", "stddev", "median") or len(m["data"]) != n:
+            continue
+        data = []
+        T = np.empty(shape, dtype=object)
+        for k, idx in enumerate(np.ndindex(shape)):
+            x = m["data"][k]
+            if isinstance(x, dict):
+                T[idx] = C.nan_like(eng)
+                data.append(x)
+            else:
+                T[idx] = eng.real("%s%d" % (mname[:2], k), lo=0 if mname == "count" else None)
+                data.append(T[idx])
+        m["data"] = SymList(data)
+        tensors[mname] = T
+    if "count" in tensors and eng.symbolic:
+        first = tuple(0 for _ in shape)
+        eng.assume(Q.lift(tensors["count"][first]) != res["counts"][0], note="the cube is weighted (first weighted cell differs from its head count)")
+    cube = Cube(raw)
+    parts = cube.partitions
+    obs = []
+    prop = {"count": "counts", "mean": "means", "sum": "sums", "stddev": "stddev", "median": "medians"}
+    if len(shape) == 3:
+        obs.append(Obs("n_partitions", len(parts), len(valid[0]), kind="same"))
+    for k, part in enumerate(parts[:3]):
+        for mname, T in tensors.items():
+            if len(shape) == 3:
+                sub = T[valid[0][k]][np.ix_(valid[1], valid[2])]
+            elif len(shape) == 2:
+                sub = T[np.ix_(valid[0], valid[1])]
+            else:
+                sub = T[np.array(valid[0], dtype=int)]
+            try:
+                got = getattr(part, prop[mname])
+            except ValueError:
+                continue
+            # base cells only (insertions of the fixture are C04's subject)
+            br = [i for i in range(got.shape[0]) if i not in set(int(x) for x in part.inserted_row_idxs)]
+            if got.ndim == 2:
+                bc = [j for j in range(got.shape[1]) if j not in set(int(x) for x in part.inserted_column_idxs)]
+                got = got[np.ix_(br, bc)]
+            else:
+                got = got[np.array(br, dtype=int)]
+            obs.append(Obs("p%d.%s" % (k, prop[mname]), got, sub))
+    return obs
+
+
 def V(kind, alias, size, missing_at=(1,)):
     kw = {"missing_at": tuple(missing_at)} if kind in ("cat", "catdate", "ca") else {}
     return (kind, alias, size, kw)
@@ -166,6 +230,15 @@ def specs(tier):
     add("carried mean cat x mr", "carried", dict(rows=V("cat", "a", 2, (0,)), cols=V("mr", "b", 2), measure="mean", unavailable=[[1, 0, 0]]))
     add("carried mean 1d cat + valid counts", "carried", dict(rows=V("cat", "a", 3, (1,)), cols=None, measure="mean", unavailable=[[2]], with_valid_counts=True))
     add("carried sum cat x cat + valid counts", "carried", dict(rows=V("cat", "a", 2, (1,)), cols=V("cat", "b", 2, (2,)), measure="sum", unavailable=[[0, 0]], with_valid_counts=True))
+    FX = "/repo/tests/fixtures/"
+    quick_fx = ["cat-x-cat.json", "cat-x-datetime.json", "cat-x-num-x-datetime.json", "datetime-x-cat-date.json", "num-x-num-empty.json", "text.json",
+                "cat-x-cat-hs-missing.json", "mean-cat-x-cat.json", "cat-x-cat-all-missing-row-elements.json", "num-binned.json", "cat-date-mean.json", "txt-x-cat-date.json"]
+    more_fx = ["admit-x-dept-unweighted.json", "cat-4-x-cat-5.json", "cat-hs-mt-x-cat-hs-mt.json", "cat-hs-x-cat-date.json", "cat-x-cat-date-wgtd.json", "cat-x-cat-german-weighted.json",
+               "cat-x-cat-mean-wgtd.json", "cat-x-cat-with-empty-cols.json", "cat-x-date-hs-prune.json", "cat-x-logical.json", "cat-x-num-hs-prune.json", "date.json",
+               "gender-x-weight.json", "means-cat-x-cat-hs.json", "median-cat-x-cat-hs.json", "missing-cat-hs.json", "pairwise-with-zero-margin.json", "scale-with-null-values.json",
+               "squared-weights-cat-x-cat.json", "cat-stddev.json", "cat-sum.json", "cat-median.json", "econ-mean-age-blame-x-gender.json", "single-col-margin-not-iterable.json"]
+    for f in quick_fx + (more_fx if tier == "thorough" else []):
+        add("fixture " + f, "fixture_cells", dict(path=FX + f))
     if tier == "thorough":
         for ma in [(0,), (1,), (3,), (0, 2), (1, 3)]:
             add("2d cat3%s x cat3" % (ma,), "two_d", dict(rows=V("cat", "a", 3, ma), cols=V("cat", "b", 3, (2,))), max_paths=300)
